@@ -83,6 +83,72 @@ fn can_reuse_metrics(
     coeffs == Affine::IDENTITY.as_coeffs()
 }
 
+/// `true` if `value`, rounded the way it will be stored, fits the i16 fields of glyf/gvar.
+fn fits_i16(value: f64) -> bool {
+    let rounded: f64 = value.ot_round();
+    (i16::MIN as f64..=i16::MAX as f64).contains(&rounded)
+}
+
+fn out_of_bounds(what: &str, glyph_name: &GlyphName, value: impl std::fmt::Debug) -> Error {
+    Error::OutOfBounds {
+        what: format!("{what} of glyph '{glyph_name}'"),
+        value: format!("{value:?}"),
+    }
+}
+
+/// Outline coordinates are stored as i16: reject what would otherwise be silently clamped.
+fn check_path_bounds(glyph_name: &GlyphName, path: &BezPath) -> Result<(), Error> {
+    let check = |pt: &Point| {
+        if fits_i16(pt.x) && fits_i16(pt.y) {
+            Ok(())
+        } else {
+            Err(out_of_bounds(
+                "outline coordinate",
+                glyph_name,
+                (pt.x, pt.y),
+            ))
+        }
+    };
+    for el in path.elements() {
+        match el {
+            PathEl::MoveTo(p) | PathEl::LineTo(p) => check(p)?,
+            PathEl::QuadTo(p0, p1) => {
+                check(p0)?;
+                check(p1)?
+            }
+            PathEl::CurveTo(p0, p1, p2) => {
+                check(p0)?;
+                check(p1)?;
+                check(p2)?
+            }
+            PathEl::ClosePath => (),
+        }
+    }
+    Ok(())
+}
+
+/// glyf stores each point as the i16 difference to the previous one, and contour
+/// end points as u16: reject glyphs that cannot be encoded.
+fn check_encodable(glyph_name: &GlyphName, glyph: &SimpleGlyph) -> Result<(), Error> {
+    let (mut last_x, mut last_y) = (0i16, 0i16);
+    let mut num_points = 0usize;
+    for pt in glyph.contours.iter().flat_map(|c| c.iter()) {
+        if pt.x.checked_sub(last_x).is_none() || pt.y.checked_sub(last_y).is_none() {
+            return Err(out_of_bounds(
+                "distance between successive points",
+                glyph_name,
+                ((last_x, last_y), (pt.x, pt.y)),
+            ));
+        }
+        (last_x, last_y) = (pt.x, pt.y);
+        num_points += 1;
+    }
+    if num_points > u16::MAX as usize {
+        return Err(out_of_bounds("number of points", glyph_name, num_points));
+    }
+    Ok(())
+}
+
 fn create_component_ref_gid(
     gid: GlyphId16,
     transform: &Affine,
@@ -151,6 +217,17 @@ fn create_composite(
             GlyphProblem::MissingDefault,
         ));
     };
+    // component offsets are stored as i16: reject what would otherwise be silently clamped
+    for (ref_glyph_name, loc, transform) in components {
+        let [.., dx, dy] = transform.as_coeffs();
+        if default_location == loc && !(fits_i16(dx) && fits_i16(dy)) {
+            return Err(out_of_bounds(
+                &format!("offset of component '{ref_glyph_name}'"),
+                &glyph.name,
+                (dx, dy),
+            ));
+        }
+    }
     let components_at_default = components
         .iter()
         .filter_map(|(ref_glyph_name, loc, transform)| {
@@ -287,9 +364,20 @@ fn compute_deltas(
     let tolerance = 0.5;
 
     // Contour (aka Simple) and Composite both need gvar
-    var_model
+    let raw_deltas = var_model
         .deltas(point_seqs)
-        .map_err(|e| Error::GlyphDeltaError(glyph_name.clone(), e))?
+        .map_err(|e| Error::GlyphDeltaError(glyph_name.clone(), e))?;
+    // deltas are stored as i16: reject what would otherwise be silently clamped
+    // (the default region carries the default master itself, not deltas)
+    if let Some(delta) = raw_deltas
+        .iter()
+        .filter(|(region, _)| !region.is_default())
+        .flat_map(|(_, deltas)| deltas.iter())
+        .find(|delta| !fits_i16(delta.x) || !fits_i16(delta.y))
+    {
+        return Err(out_of_bounds("gvar delta", glyph_name, (delta.x, delta.y)));
+    }
+    raw_deltas
         .into_iter()
         .map(|(region, deltas)| {
             // Spec: inferring of deltas for un-referenced points applies only
@@ -395,6 +483,9 @@ impl Work<Context, AnyWorkId, Error> for GlyphWork {
             CheckedGlyph::Contour { name, paths } => {
                 // Convert paths to SimpleGlyphs in parallel so we can get consistent point streams
                 let (locations, bezpaths): (Vec<_>, Vec<_>) = paths.into_iter().unzip();
+                for bezpath in &bezpaths {
+                    check_path_bounds(&self.glyph_name, bezpath)?;
+                }
                 let simple_glyphs = SimpleGlyph::interpolatable_glyphs_from_bezpaths(&bezpaths)
                     .map_err(|e| Error::KurboError {
                         glyph_name: self.glyph_name.clone(),
@@ -417,6 +508,7 @@ impl Work<Context, AnyWorkId, Error> for GlyphWork {
                         GlyphProblem::MissingDefault,
                     ));
                 };
+                check_encodable(&self.glyph_name, base_glyph)?;
                 context
                     .glyphs
                     .set_unconditionally(Glyph::new(name.clone(), base_glyph.clone()));
